@@ -8,21 +8,27 @@ F15 = "uni chan=move_atomic N=8 M=1 k=1 origin=0 ; drive:0 ; send:1 send:2 send:
 
 class C04(Prop):
     pid = "C04"; prop_file = "C04.v"
-    rule = ("cases: 1-3 producers (send / send_with, 1-4 events each) against 1..MAX_STREAMS executor-driven streams (MAX_STREAMS in {1,2}) on the movable atomic and movable "
+    rule = ("entry points: send, send_with, send_with_async (ready setter), reserve_slot + try_send_reserved / try_cancel_slot_reserve (movable atomic channel; the movable "
+            "full-sync channel does not implement reservations); cases: 1-3 producers (send / send_with, 1-4 events each) against 1..MAX_STREAMS executor-driven streams (MAX_STREAMS in {1,2}) on the movable atomic and movable "
             "full-sync Uni channels, random bursty schedule then 60 round-robin rounds to quiescence; non-trivial = a context switch inside another thread's operation AND a Pending answer; "
             "the lost-wake-up oracle looks at the quiescent end of each implementation trace")
     trusted_base = ["task semantics of the harness executor: a stream is polled, parks on Pending, is re-polled once its waker was invoked (wake and the parked look at `notified` are scheduling points) - the documented Waker contract, not tokio itself",
-                    "modelled, not verified here: crossbeam / zero-copy Uni channels and the Multi channels (wake rules differ); send_with_async and try_send_reserved entry points"]
+                    "modelled, not verified here: crossbeam / zero-copy Uni channels and the Multi channels (wake rules differ); a send_with_async whose setter suspends (C20)"]
     assumptions = ["each stream is driven by exactly one task", "no stream is dropped during the run"]
     def suites(self, tier, rng):
         n = 150 if tier == "quick" else 3000
         at = [unigen.parse_case_line(F1), unigen.parse_case_line(F13), unigen.parse_case_line(F15)] + [unigen.gen_case(rng, "move_atomic", profile="drive", tail_rounds=60) for _ in range(n)]
         fs = [unigen.gen_case(rng, "move_full_sync", profile="drive", tail_rounds=60) for _ in range(n)]
-        return [Suite("uni_move_full_sync", unigen.HEADER, fs), Suite("uni_move_atomic", unigen.HEADER, at)]
+        F2 = "uni chan=move_atomic N=4 M=2 k=1 origin=0 ; res:0:100 sres:0 ; drive:0 ; S " + "1 " * 14 + "0 " * 12 + "0 1 " * 30
+        en = [unigen.parse_case_line(F2)] + [unigen.gen_entry_case(rng, "move_atomic") for _ in range(n)]
+        fa = [unigen.gen_entry_case(rng, "move_full_sync", reserve_ok=False) for _ in range(n // 3)]
+        return [Suite("uni_move_full_sync", unigen.HEADER, fs), Suite("uni_move_atomic", unigen.HEADER, at),
+                Suite("uni_move_atomic_entry_points", unigen.XHEADER, en), Suite("uni_move_full_sync_async", unigen.HEADER, fa)
+                ] + unigen.oracle_only_suites(rng, n // 2, profile="drive", tail_rounds=60)
     def oracle(self, case, recs):
         return unigen.oracle_lost_wakeup(case, recs)
     def nontrivial(self, case, recs):
         return unigen.uni_nontrivial(case, recs)
     def parse_replay(self, text):
         lines = [l for l in text.splitlines() if l.strip() and not l.startswith("#")]
-        return Suite("replay", unigen.HEADER, [unigen.parse_case_line(l) for l in lines])
+        return Suite("replay", unigen.XHEADER, [unigen.parse_case_line(l) for l in lines])
